@@ -120,6 +120,7 @@ where
                         skipped.fetch_add(1, Ordering::Relaxed);
                         continue;
                     }
+                    case_log(k);
                     work(k, &mut local);
                 };
                 #[cfg(feature = "par")]
@@ -445,6 +446,18 @@ pub fn ill_threshold() -> f64 {
 }
 
 /// debugging aid: VERIF_ONLY_CASE=<k> runs only case number k of the stream
+/// `VERIF_CASELOG=<file>`: append the number of every case before it is run (flushed), so that the driver can tell which
+/// case a crash of the process (SIGSEGV, abort from a non-unwinding panic) belongs to.
+pub fn case_log(k: u64) {
+    use std::io::Write;
+    if let Ok(path) = std::env::var("VERIF_CASELOG") {
+        if let Ok(mut f) = std::fs::OpenOptions::new().create(true).append(true).open(path) {
+            let _ = writeln!(f, "{k}");
+            let _ = f.flush();
+        }
+    }
+}
+
 pub fn only_case() -> Option<u64> {
     std::env::var("VERIF_ONLY_CASE").ok().and_then(|s| s.parse().ok())
 }
